@@ -3,6 +3,7 @@ from typing import Dict
 from openpyxl.utils import column_index_from_string
 
 from excel2pycl.src.cell import Cell
+from excel2pycl.src.exceptions import E2PyclCellException
 
 
 def handle_cell(cell: Cell, titles: Dict[str, int]):
@@ -10,10 +11,15 @@ def handle_cell(cell: Cell, titles: Dict[str, int]):
         return
 
     if isinstance(cell.title, str):
+        if cell.title not in titles:
+            raise E2PyclCellException(f'There is no worksheet with the title of {cell}')
         cell.title = titles[cell.title]
 
     if isinstance(cell.column, str):
-        cell.column = column_index_from_string(cell.column) - 1
+        try:
+            cell.column = column_index_from_string(cell.column) - 1
+        except ValueError as e:
+            raise E2PyclCellException(f'Invalid column letters of {cell}') from e
 
     if isinstance(cell.row, str):
         if cell.row:
